@@ -104,13 +104,15 @@ CtxEnd(o) ==  \* the caller's context ends (cancel or deadline)
 (*   [t |-> "reply", id |-> i]   reply for id i (pending, finished or never used) *)
 (*   [t |-> "bad",   id |-> i]   malformed member carrying id i            *)
 (*   [t |-> "note"] / [t |-> "call", id |-> j]   server push               *)
+(*   [t |-> "badcall", id |-> j]   a server-initiated call that fails      *)
+(*                                 validation (wrong version, extra member)*)
 (***************************************************************************)
 RECURSIVE SumCalls(_)
 SumCalls(S) == IF S = {} THEN 0 ELSE LET o == CHOOSE x \in S : TRUE IN Cardinality({i \in 1..Len(Ops[o].specs) : ~Ops[o].specs[i]}) + SumCalls(S \ {o})
 TotalCalls == SumCalls(DOMAIN Ops)
 ReplyIds == 1..(TotalCalls + 1)      \* includes one id that is never issued
 Items == [t : {"reply"}, id : ReplyIds] \cup {[t |-> "bad", id |-> 1]}
-         \cup (IF "srvreq" \in Faults THEN {[t |-> "note", id |-> 0], [t |-> "call", id |-> 7]} ELSE {})
+         \cup (IF "srvreq" \in Faults THEN {[t |-> "note", id |-> 0], [t |-> "call", id |-> 7], [t |-> "badcall", id |-> 1]} ELSE {})
 Records == {<<x>> : x \in Items} \cup {<<x, y>> : x \in Items, y \in Items}
 
 PeerDeliver(rec) ==  \* the reader receives a decodable record and spawns its delivery goroutine
@@ -183,7 +185,9 @@ DeliverItems(items, sl, cb, bl) ==
        THEN IF x.id \in DOMAIN sl /\ sl[x.id].st = "pending"
             THEN DeliverItems(Tail(items), [sl EXCEPT ![x.id].st = "filled", ![x.id].by = "reply", ![x.id].fills = @ + 1], cb, bl)
             ELSE DeliverItems(Tail(items), sl, cb, bl)      \* unknown or already completed id: discarded
-       ELSE IF x.t = "call" /\ HasCallback /\ ch = "open"
+       \* a server-initiated request goes to the callback handler - also one that fails validation ("badcall": its id
+       \* may well equal the id of a pending request of ours; it is a request all the same, never a reply)
+       ELSE IF x.t \in {"call", "badcall"} /\ HasCallback /\ ch = "open"
             THEN DeliverItems(Tail(items), sl, [i \in DOMAIN cb \cup {x.id} |-> IF i = x.id THEN "run" ELSE cb[i]], bl)
             ELSE DeliverItems(Tail(items), sl, cb, bl)
 
@@ -224,7 +228,7 @@ CbReply(c) ==    \* send the reply unless the client has stopped
 OpSpace == OpNames
 IdSpace == 1..(TotalCalls + 1)
 DSpace  == 1..MaxRecv
-CbSpace == {7}
+CbSpace == {7, 1}
 
 Next ==
   \/ \E o \in OpSpace : StartOp(o)
